@@ -43,6 +43,17 @@ CHECKS = {
         "and comparing slot by slot with the formatted output on 20k random programs.",
    design="5/C12", technique="Coq proof over statement lists + differential of the extracted model against format_code",
    note=BASE_NOTE + "Group boundaries use full_moon's line numbers; ignore directives are recomputed by the harness."),
+ "C15": dict(
+   text="Theorems: the memoising upward search returns the nearest ancestor-or-self configuration up to the search root (else the XDG/HOME fallback) for ANY history of earlier lookups - the memo table is unobservable - and the precedence "
+        "--config-path > found > .editorconfig > defaults with command-line options applied last. Tied by running the extracted search over the whole lookup history of each generated tree and comparing with the configuration the binary visibly applied "
+        "(files, directory, stdin, stdin + --stdin-filepath).",
+   design="5/C15", technique="Coq proof (memo-table invariant over lookup histories) + binary correspondence on configuration trees",
+   note=BASE_NOTE + "toml/serde, ec4rs and the environment are modelled; targets outside the working directory and `..` paths are characterised only."),
+ "C16": dict(
+   text="Theorems on the selection glue with the directory walker as an oracle (any order, any spellings): no location is processed twice, only wanted files are processed, and every wanted file is processed under some spelling. "
+        "Tied by applying the extracted selection to the expected walker entries of random trees with nested .styluaignore files, negations, hidden entries, non-Lua files, overlapping and repeated arguments, and comparing with the files the binary processed (and how many times).",
+   design="5/C16", technique="Coq proof on the selection glue + binary correspondence with an independent ignore matcher as oracle",
+   note=BASE_NOTE + "ignore/globset are modelled by an independent matcher for the generated pattern class; one dependency quirk is a listed known finding."),
 }
 PENDING = {}
 def main():
